@@ -109,6 +109,12 @@ CHECKS = {
         text="The real LFRic generator is run on an algorithm file synthesised for every entry of BUILTIN_MAP under distributed memory on/off x annexed-DoF computation on/off x OpenMP variants, and on multi-built-in invokes over fields of three differently sized function spaces with LFRicLoopFuseTrans applied forwards and backwards. The oracle is read at run time from doc/user_guide/dynamo0p3.rst (signature and array-syntax formula of each built-in); the documented range is all DoFs (no DM), owned DoFs (DM, always for reductions) or owned+annexed (DM with COMPUTE_ANNEXED_DOFS). The generated invoke and the documented statements are executed symbolically over the same symbolic field data, scalars and DoF counts (0 <= owned <= annexed <= undf <= K); z3 decides that every field agrees at every DoF (updated inside the range, untouched outside) and every reduction result agrees. Witnesses are replayed by concrete re-execution and a plain-Python evaluation of the documented formula.",
         note="Bounds: undf <= 3 (quick) / 4 (thorough) per function space (DoF loops unrolled), exact arithmetic. LFRic infrastructure is a stub contract (vlib/fsym/lfric.py): proxies alias fields, one data array per field, get_sum is the identity (one rank), halo calls do not touch data. setval_random and reprod reductions are outside the claim. Trusted: fparser2, z3, fsym, the stub contract, the doc parser.",
         ref="5/C20"),
+    "C21": dict(
+        level="translation_validation", engine="fsym",
+        technique="the generated kernel stub and the generated PSy layer are executed as ONE program by fsym, so the real call is associated with the real stub interface: count, intrinsic type and rank of every argument are checked by the association itself, and z3 decides for all mesh / function-space sizes admitted by the LFRic infrastructure contract that every explicit-shape dummy of the stub fits inside the actual array it receives",
+        text="For every algorithm file of the repository's LFRic test set (304 files, 182 invokes for which both generators succeed) and for 60 (quick) / 1200 (thorough) randomly drawn kernel metadata (scalars of three types, fields and field vectors on every function space, six stencil types with literal and run-time extents, operators, basis and differential basis functions with XYoZ / face / edge quadrature and evaluators, one or two shapes), gen_kernel_stub.generate and the LFRic PSy generator are run on the same metadata, with distributed memory off (and on in thorough). The stub's dummy bounds (dimension(undf_w1), (ndf_w2), (3,ndf,np_xy,np_z), (ndf,max_branch,4) ...) are evaluated from the integer actuals at their positions, so a swapped pair of integers, a stencil size in the wrong slot or an evaluator array for the wrong space makes some dummy larger than its actual for some sizes; z3 returns such sizes and the check replays them by a concrete run of both texts.",
+        note="Unbounded in mesh and function-space sizes (symbolic; loops summarised). Kind parameters and intents are not compared (fsym has one real and one integer type; stubs have no body). The infrastructure contract (extents of dofmaps, nodes, boundary dofs, operator stencils, CMA matrices, quadrature weights, stencil maps, reference-element arrays, basis dimensions per space, one function space per named space within a kernel call) is listed in the evidence assumptions. CMA operators, mesh and reference-element properties are covered only through the repository's files; inter-grid and domain kernels are refused by the stub generator. Trusted: fparser2, z3, fsym, the contract.",
+        ref="5/C21"),
     "C22": dict(
         level="model_checking", engine="fsym",
         technique="abstract execution of the generated distributed-memory PSy layer with a symbolic halo state per field (recorded clean depth, really valid depth) and summarised loops; z3 decides every read obligation and every observation of the recorded state for all initial states, stencil extents and mesh halo depths",
@@ -152,7 +158,6 @@ NA = {
     "C04": "Declared-exactly-once / declared-before-use / compiles-with-implicit-none is a static scoping and ordering property of one concrete text, decided by a compiler front end, not by a solver: no input, schedule or state to quantify over. The only value-dependent clause (a renamed inner-scope symbol capturing another reference when scopes merge) is decided by the translation validation of C05/C06/C07, and their harnesses (and C01's) additionally report written or transformed code that gfortran -fimplicit-none rejects (the seeded C04 change is caught there), but that by-product is not a solver verdict, so C04 itself is not claimed.",
     "C10": "Quantifies over transformation histories against a structural nesting grammar; no data inputs to make symbolic; CrossHair over choice integers degenerates into enumeration at 50-100x slowdown.",
     "C15": "Heap identity/aliasing property of Python object graphs under edit histories; no value domain for SMT; outside CrossHair's reach on PSyIR objects.",
-    "C21": "Two concrete positional lists per metadata file; metadata is parsed by fparser2 and cannot be made symbolic; no run-time value for a solver to decide.",
     "C26": "Concrete before/after tree equality around an exception over concrete (transformation,node,options) triples; only numeric options are symbolisable and that is enumeration under CrossHair.",
 }
 PENDING = "check not built yet in this session; listed as not applicable until its solver-based check is registered"
